@@ -918,6 +918,11 @@ fn write_project(dir: &Path, p: &Project) {
 const JS_SNIPPETS: &[&str] = &[
   "foo(1);\n", "foo(2, 3);\n", "let x = foo(foo(4));\n", "bar(5);\n", "// é 中 𝒳\n", "const s = 'é';\n",
   "foo('中');\r\n", "let arr = [1, 2, 3];\n", "console.log(x);\n", "debugger;\n", "foo(bar(6), 7);\n", "var v = 8;\n", "\n",
+  // suppressions that are used only by a match NESTED inside a node another rule fixes
+  "// ast-grep-ignore: a-num\nfoo(7);\n", "foo(8); // ast-grep-ignore: a-num\n", "// ast-grep-ignore\nfoo(bar(6));\n",
+  "// ast-grep-ignore: p-callee\nfoo(foo(9));\n", "// ast-grep-ignore: a-num\nbar(5);\n",
+  // two expanding fixes that share a separator, with a third fix nested inside the one that loses
+  "let brr = [1, g(2), 3];\n", "let crr = [g(4), 5];\n",
 ];
 
 fn gen_js(rng: &mut Rng) -> String {
@@ -987,6 +992,8 @@ const SCAN_RULES: &[(&str, &str)] = &[
   ("n-etag", "language: html\nrule: {kind: end_tag}\nfix: '</x>'\n"),
   ("o-args", "language: js\nrule: {kind: arguments}\nfix: '()'\n"),
   ("p-callee", "language: js\nrule: {kind: identifier, regex: '^(foo|bar)$'}\nfix: qux\n"),
+  // expands to the LEFT over the separator that e-arr's expandEnd swallows too
+  ("q-arr", "language: js\nrule: {kind: call_expression, inside: {kind: array}}\nfix:\n  template: 'C'\n  expandStart: {regex: ','}\n"),
 ];
 
 fn gen_project(rng: &mut Rng, k: usize) -> Project {
@@ -1331,11 +1338,18 @@ pub fn c06_cli(ctx: &Ctx, rng: &mut Rng, o: &mut Out) {
         continue;
       };
       let expands = a.rule == "e-arr";
+      let expands_start = a.rule == "q-arr";
       let r = &a.range;
       let why = if !(r.start <= r.end && r.end <= content.len()) {
         Some("range outside file")
       } else if !(content.is_char_boundary(r.start) && content.is_char_boundary(r.end)) {
         Some("range off char boundary")
+      } else if expands_start {
+        // documented meaning of `expandStart: {regex: ','}` (stopBy neighbor): swallow a directly
+        // preceding comma token (white space between the comma and the node belongs to the range)
+        let before = content[..a.node.0].trim_end_matches([' ', '\n', '\r', '\t']);
+        let want_start = if before.ends_with(',') { before.len() - 1 } else { a.node.0 };
+        if r.end != a.node.1 || r.start != want_start { Some("expandStart does not start at the preceding comma") } else { None }
       } else if !expands && r.start != a.node.0 {
         Some("range does not start at the match")
       } else if !expands && r.end > a.node.1 {
